@@ -128,6 +128,9 @@ static void set_position(struct context_data *ctx, int pos, int dir)
 			} else {
 				p->pos = pos;
 			}
+			/* The player repositions when pos and ord differ:
+			 * ask explicitly if the target is the current order. */
+			p->reposition = (p->pos == p->ord);
 			/* Clear flow vars to prevent old pattern jumps and
 			 * other junk from executing in the new position. */
 			libxmp_reset_flow(ctx);
@@ -209,6 +212,7 @@ int xmp_set_row(xmp_context opaque, int row)
 	if (p->pos < 0)
 		p->pos = 0;
 	p->ord = p->pos;
+	p->reposition = 0;
 	p->row = row;
 	p->frame = -1;
 	f->num_rows = mod->xxp[mod->xxo[p->ord]]->rows;
